@@ -565,3 +565,7 @@ mod tests {
         );
     }
 }
+
+#[cfg(any(kani, verif_replay))]
+#[path = "/verif/kani/proto_hdr.rs"]
+pub(crate) mod verif_kani_proto_hdr;
